@@ -177,6 +177,10 @@ func (b *Bridge) after(in *hub.Instance, g *bridgeGhost, op engine.Op, pre *view
 	for k := range postB {
 		if !g.BatchSeen[k] {
 			newKeys = append(newKeys, k)
+		} else if seq, ok := g.BatchSeq[k]; ok && seq != postB[k].Sequence {
+			// same chain, token and nonce as an earlier batch but created anew: signatures for the old one attach to it
+			b.v(st, "C10", "batch_nonce_reused", "incrementLastOutgoingBatchNonce", "batch %s exists again with outgoing sequence %d (first created with %d): the nonce was given to two different batches", k, postB[k].Sequence, seq)
+			g.BatchSeq[k] = postB[k].Sequence
 		}
 	}
 	sort.Slice(newKeys, func(i, j int) bool { return postB[newKeys[i]].Sequence < postB[newKeys[j]].Sequence })
@@ -191,6 +195,7 @@ func (b *Bridge) after(in *hub.Instance, g *bridgeGhost, op engine.Op, pre *view
 			}
 		}
 		g.BatchSeen[k] = true
+		g.BatchSeq[k] = bt.Sequence
 		st.Count("batches_created", 1)
 		if len(bt.Transactions) == 0 {
 			b.v(st, "C10", "empty_batch", op.Kind, "batch %s created with no transfers", k)
